@@ -441,8 +441,9 @@ theorem rotate_api_partial (left : Bool) (s : MState) (src dst : Bytes) (l d : L
   api_rotate left s src dst l d now x rest hsrc hne hl hd
 
 /-- source absent, or indexed but not ok / past its deadline: nil reply; no other record changes, the
-    source record (if any) only has its access counter bumped, the backend is untouched.  `dst` is
-    never looked at. -/
+    source record (if any) only has its access counter bumped, the backend is untouched (the lookup
+    uses a nil constructor, so no record is unlinked or replaced and `unpersist` never runs: no
+    backend entry is removed).  `dst` is never looked at. -/
 theorem rotate_api_missing_source (left : Bool) (s : MState) (now : Int) (src dst : Bytes)
     (h : Store.getMeta s src = none ∨
          ∃ m, Store.getMeta s src = some m ∧ (m.isOk = false ∨ m.expired now = true)) :
